@@ -182,6 +182,7 @@ func sessionC08(r *vk.Run, rng *rand.Rand, bin string, wkr, idx int) {
 	kinds := map[string]bool{}
 	nsteps := 5 + rng.Intn(14)
 	bad := false
+	forceNext := ""
 	for k := 0; k < nsteps && !bad; k++ {
 		// a burst of 1..4 batches; either paced (wait for each) or queued behind a busy UI loop
 		burst := 1
@@ -194,8 +195,65 @@ func sessionC08(r *vk.Run, rng *rand.Rand, bin string, wkr, idx int) {
 			}
 			hist = append(hist, step{"execute-silent(sleep 0.15)", "busy", false})
 		}
+		// scripted bursts aimed at two windows of the coordinator: (a) an exclusion that arrives while a
+		// reload has been requested but has not delivered anything yet belongs to the old input and must
+		// not hide a line of the new one; (b) an nth change while a search is in flight, followed by
+		// queries that narrow and widen again (workers of the cancelled search and the chunk cache)
+		var script []string
+		if !queued && rng.Intn(14) == 0 {
+			if st0, err := s.Get(1); err == nil && st0.Current != nil {
+				n := []int{40, 101, 777}[rng.Intn(3)]
+				alt := genInput(rng, n, "S")
+				os.WriteFile(altFile, []byte(joinLines(alt)), 0o644)
+				t0 := time.Now()
+				c1, e1 := s.Post("reload(sleep 1.5; cat " + shq(altFile) + ")")
+				c2, e2 := s.Post("exclude")
+				okc := s.WaitConsumed(10 * time.Second)
+				if e1 != nil || e2 != nil || c1 != 200 || c2 != 200 || !okc || time.Since(t0) > 900*time.Millisecond {
+					r.Inconclusive("scripted reload+exclude could not be delivered inside the reload's silent phase")
+					return
+				}
+				hist = append(hist, step{"reload(sleep 1.5; cat alt)", "slow-reload", true}, step{"exclude", "exclude-during-reload", true})
+				kinds["exclude-during-reload"] = true
+				wd.lines = alt
+				if wd.header > 0 {
+					wd.lines = alt[min(wd.header, len(alt)):]
+				}
+				wd.excluded = map[int]bool{}
+				burst = 0
+			}
+		} else if queued && size >= 5000 && rng.Intn(3) == 0 {
+			k := []string{"1", "2", "3"}[rng.Intn(3)]
+			c := queryBits[rng.Intn(6)]
+			script = []string{"put(x)", "change-nth(" + k + ")", "put(" + c + ")", "toggle-sort"}
+			wd.query += "x" + c
+			wd.nth = k
+			wd.sortOn = !wd.sortOn
+			kinds["nth-race"] = true
+			burst = 0
+			for _, p := range script {
+				if code, err := s.Post(p); err != nil || code != 200 {
+					r.Inconclusive(fmt.Sprintf("POST %q failed: %v %d", p, err, code))
+					return
+				}
+				hist = append(hist, step{p, "nth-race", false})
+			}
+			forceNext = "backward-delete-char"
+		}
 		for b := 0; b < burst && !bad; b++ {
-			post, kind, ok := nextAction(rng, wd, s, altFile, queued)
+			var post, kind string
+			var ok bool
+			if forceNext != "" && !queued && b == 0 {
+				// the scripted burst of the previous step is followed by a widening edit
+				post, kind, ok = forceNext, "delete", true
+				if len(wd.query) > 0 {
+					rs := []rune(wd.query)
+					wd.query = string(rs[:len(rs)-1])
+				}
+				forceNext = ""
+			} else {
+				post, kind, ok = nextAction(rng, wd, s, altFile, queued, b == 0)
+			}
 			if !ok {
 				continue
 			}
@@ -299,7 +357,7 @@ func sessionC08(r *vk.Run, rng *rand.Rand, bin string, wkr, idx int) {
 
 func classifyC08(hist []step) string { return "" }
 
-func nextAction(rng *rand.Rand, wd *world, s *tty.Session, altFile string, queued bool) (string, string, bool) {
+func nextAction(rng *rand.Rand, wd *world, s *tty.Session, altFile string, queued bool, first bool) (string, string, bool) {
 	switch c := rng.Intn(20); {
 	case c < 6:
 		b := queryBits[rng.Intn(len(queryBits))]
@@ -357,8 +415,9 @@ func nextAction(rng *rand.Rand, wd *world, s *tty.Session, altFile string, queue
 		wd.sortOn = !wd.sortOn
 		return "toggle-sort", "toggle-sort", true
 	case c < 17:
-		// exclude the current item (needs a settled list: only when paced)
-		if queued {
+		// exclude the current item (needs a settled list: when paced, or as the first action of a queued
+		// burst - the list cannot change while the interface is busy with the execute-silent in front of it)
+		if queued && !first {
 			return "", "", false
 		}
 		st, err := s.Get(1)
